@@ -11,8 +11,29 @@ from fractions import Fraction
 from pathlib import Path
 
 ROOT = Path(__file__).resolve().parent.parent
-LEAN = ROOT / "lean"
 REPO = Path(os.environ.get("QIB_REPO", "/repo"))
+LEAN = Path(os.environ.get("VERIF_LEAN", ROOT / "lean"))
+
+
+def _scratch_lean():
+    """Checks against a scratch worktree (QIB_REPO=/tmp/...; seeded changes, mutation self-tests) must not regenerate
+    lean/QibGen in the shared project: they work on a private copy of the lake project (source + build products),
+    synchronised from /verif/lean at the start of the run. Registered commands (QIB_REPO unset) always use /verif/lean."""
+    global LEAN
+    if "VERIF_LEAN" in os.environ or REPO.resolve() == Path("/repo"):
+        return
+    src = ROOT / "lean"
+    dst = Path("/tmp/verif-lean-scratch") / hashlib.sha1(str(REPO.resolve()).encode()).hexdigest()[:10]
+    dst.mkdir(parents=True, exist_ok=True)
+    (src / ".verif.lock").touch()
+    with open(src / ".verif.lock", "w") as lf, open(dst / ".verif.lock", "w") as lf2:
+        fcntl.flock(lf2, fcntl.LOCK_EX)
+        fcntl.flock(lf, fcntl.LOCK_EX)
+        subprocess.run(["rsync", "-a", "--delete", "--exclude", ".verif.lock", "--exclude", ".lake/audit", str(src) + "/", str(dst) + "/"], check=True)
+    LEAN = dst
+
+
+_scratch_lean()
 EVID = ROOT / "evidence"
 REPLAYS = ROOT / "replays"
 KNOWN = ROOT / "known_findings.json"
